@@ -195,6 +195,34 @@ def gen_corpus(rnd):
     return {"docs": docs, "cuts": cuts, "probes": probes}
 
 
+def check_spelling_field():
+    """C19 deterministic family: a stemmed field that keeps its unmodified words in a spelling sub-field: the terms within a
+    distance are words of THAT sub-field, the same for one segment and for several."""
+    from whoosh import fields, analysis
+    from whoosh.filedb.filestore import RamStorage
+    words = [u"running rendering", u"runner renders", u"ruined"]
+    outs = []
+    for cuts in ((), (1,), (1, 2)):
+        ix = RamStorage().create_index(fields.Schema(t=fields.TEXT(analyzer=analysis.StemmingAnalyzer(), spelling=True)))
+        w = ix.writer()
+        for i, text in enumerate(words):
+            if i in cuts:
+                w.commit(merge=False)
+                w = ix.writer()
+            w.add_document(t=text)
+        w.commit(merge=False)
+        with ix.reader() as r:
+            outs.append(dict((probe, sorted(r.terms_within("t", probe, 2))) for probe in (u"runing", u"rendring", u"ruined")))
+    vocab = sorted(set(" ".join(words).split()))
+    exp = dict((probe, sorted(w_ for w_ in vocab if osa(w_, probe) <= 2 or lev(w_, probe) <= 2)) for probe in outs[0])
+    counts["cases"] += 3
+    if outs[0] != outs[1] or outs[0] != outs[2]:
+        fail("C19-spelling-field-segments", "terms_within on a stemmed field with a spelling sub-field: one segment %r, two %r, three %r"
+             % (outs[0], outs[1], outs[2]))
+    elif any(not set(outs[0][p]) <= set(vocab) for p in outs[0]):
+        fail("C19-spelling-field-words", "terms_within returned stems instead of words: %r (words %r)" % (outs[0], vocab))
+
+
 def main():
     tmp = tempfile.mkdtemp(prefix="fb_")
     os.environ["TMPDIR"] = tmp
@@ -205,6 +233,7 @@ def main():
             check_corpus(corpus)
         else:
             check_distance()
+            check_spelling_field()
         for f in fails:
             print("FAIL", f["case"], "|", f["detail"])
         sys.exit(1 if fails else 0)
@@ -220,6 +249,10 @@ def main():
             check_corpus(corpus)
         except Exception:
             fail("exception/corpus", traceback.format_exc()[-600:], corpus)
+    try:
+        check_spelling_field()
+    except Exception:
+        fail("exception/spelling-field", traceback.format_exc()[-600:], None)
     import shutil
     shutil.rmtree(tmp, ignore_errors=True)
     print(json.dumps({"cases": counts["cases"], "distinct_nontrivial": counts["cases"] - 1, "failures": fails,
